@@ -262,6 +262,17 @@ func genC04wt(seed uint64, tier string) *Scenario {
 			case 1:
 				op.Split = []int{r.Range(1, 16384), r.Range(1, 16384), r.Range(1, 200)}
 			}
+			// padding multiplies the bytes on the wire: a 1-byte split with 255
+			// bytes of padding is 257 wire bytes per payload byte
+			if op.Pad > 0 && len(op.Split) > 0 && op.Split[0] < 100 && sz > 300 {
+				op.Pad = 1
+			}
+			if slowNet(s) {
+				op.Pad = min(op.Pad, 1)
+				if len(op.Split) > 0 && op.Split[0] < 500 && sz > 2000 {
+					op.Split = []int{r.Range(500, 5000)}
+				}
+			}
 			srv = append(srv, op)
 			if r.Chance(1, 4) {
 				srv = append(srv, SOp{Op: "sleep", Ns: int64(r.LogUniform(1000, 100000000))})
